@@ -1,5 +1,7 @@
 /* pure functions driver (C09, C18): extension, storepath, common parent, params */
 #include "kdrv.h"
+#include "counter.h"
+#include <unistd.h>
 
 int drv_pure(void) {
   struct trace *trace = create_trace();
@@ -19,6 +21,15 @@ int drv_pure(void) {
       print_hex(get_file_extension(p));
       printf("\n");
       free(p);
+    } else if (!strcmp(t[0], "ctr")) {
+      /* ctr <n>: write_counter then read_counter on a scratch file (counter.c) */
+      char path[64];
+      snprintf(path, sizeof path, "/tmp/kvctr.%ld", (long)getpid());
+      size_t v = strtoull(t[1], NULL, 10);
+      write_counter(path, v, trace);
+      size_t r = read_counter(path, trace);
+      printf("ctr %zu\n", r);
+      unlink(path);
     } else if (!strcmp(t[0], "sp")) {
       char *root = unhex(t[1]), *rel = unhex(t[2]), *ver = unhex(t[3]);
       int k = atoi(t[4]);
